@@ -436,6 +436,8 @@ impl<'a> World<'a> {
             }};
         }
         let model_on = self.ep.checks.model;
+        // results of the bulk / *_string convenience calls are property C14's
+        let conv_on = self.ep.checks.model_bulk;
         match step {
             Step::Put { h, k, v, mode } => with_h!(h, |m, hd| {
                 self.drop_iters_of(m);
@@ -482,7 +484,7 @@ impl<'a> World<'a> {
                 let r = self.call("get_string", |_| hd.get_string(k))?;
                 let got = self.ok("get_string", r)?;
                 let want = self.maps[m].model.get(&k.stored(kt)).map(|x| String::from_utf8_lossy(&x.1).to_string());
-                if model_on && got != want {
+                if model_on && conv_on && got != want {
                     return Err(self.model_mismatch("get_string", &k.short(), format!("{got:?}"), format!("{want:?}")));
                 }
                 Ok(())
@@ -510,7 +512,7 @@ impl<'a> World<'a> {
                 if want.is_some() {
                     self.stats.effective_updates += 1;
                 }
-                if model_on && got != want {
+                if model_on && conv_on && got != want {
                     return Err(self.model_mismatch("delete_string", &k.short(), format!("{got:?}"), format!("{want:?}")));
                 }
                 Ok(())
@@ -551,7 +553,7 @@ impl<'a> World<'a> {
                 let got = self.ok("bulk_get", r)?;
                 let want: Vec<Option<Vec<u8>>> =
                     ks.iter().map(|k| self.maps[m].model.get(&k.stored(kt)).map(|x| x.1.clone())).collect();
-                if model_on && got != want {
+                if model_on && conv_on && got != want {
                     let pos = (0..want.len().max(got.len())).find(|&i| got.get(i) != want.get(i)).unwrap_or(0);
                     return Err(self.model_mismatch(
                         "bulk_get",
@@ -570,7 +572,7 @@ impl<'a> World<'a> {
                     .iter()
                     .map(|k| self.maps[m].model.get(&k.stored(kt)).map(|x| String::from_utf8_lossy(&x.1).to_string()))
                     .collect();
-                if model_on && got != want {
+                if model_on && conv_on && got != want {
                     return Err(self.model_mismatch("bulk_get_string", &format!("batch of {}", ks.len()), format!("{got:?}"), format!("{want:?}")));
                 }
                 Ok(())
@@ -611,7 +613,7 @@ impl<'a> World<'a> {
                         self.stats.effective_updates += 1;
                     }
                 }
-                if model_on && got != want {
+                if model_on && conv_on && got != want {
                     let pos = (0..want.len().max(got.len())).find(|&i| got.get(i) != want.get(i)).unwrap_or(0);
                     return Err(self.model_mismatch(
                         "bulk_delete",
@@ -636,7 +638,7 @@ impl<'a> World<'a> {
                         self.stats.effective_updates += 1;
                     }
                 }
-                if model_on && got != want {
+                if model_on && conv_on && got != want {
                     return Err(self.model_mismatch("bulk_delete_string", &format!("batch of {}", ks.len()), format!("{got:?}"), format!("{want:?}")));
                 }
                 Ok(())
